@@ -325,9 +325,11 @@ func TestC01Histories(t *testing.T) {
 	// replication echoes must not change who matches: the node's own full state merged back, the last
 	// broadcast delivered again, and a peer's snapshot of the same state
 	ops = append(ops, hop{"echo-own-full-state", "", "", 0}, hop{"redeliver-last-broadcast", "", "", 0})
+	// a peer's snapshot taken now and merged back later must lose against everything that happened in between
+	ops = append(ops, hop{"peer-takes-snapshot", "", "", 0}, hop{"merge-stale-peer-snapshot", "", "", 0})
 	name := func(o hop) string {
 		switch o.kind {
-		case "echo-own-full-state", "redeliver-last-broadcast":
+		case "echo-own-full-state", "redeliver-last-broadcast", "peer-takes-snapshot", "merge-stale-peer-snapshot":
 			return o.kind
 		case "create":
 			return fmt.Sprintf("Create(%s,%s,q%d)", o.s, o.f, o.q)
@@ -349,6 +351,7 @@ func TestC01Histories(t *testing.T) {
 			active := map[string]int32{} // s|f -> qos
 			var names []string
 			var lastMsgs [][]byte
+			var peerSnap []byte
 			for _, oi := range seq {
 				o := ops[oi]
 				names = append(names, name(o))
@@ -361,6 +364,14 @@ func TestC01Histories(t *testing.T) {
 							peer.st.Distributor().MergeRemoteState(n.st.Distributor().LocalState(false), true)
 							n.st.Distributor().MergeRemoteState(n.st.Distributor().LocalState(false), false)
 							n.st.Distributor().MergeRemoteState(peer.st.Distributor().LocalState(false), false)
+						case "peer-takes-snapshot":
+							peer := newDNode("P", 2, 0)
+							peer.st.Distributor().MergeRemoteState(n.st.Distributor().LocalState(false), true)
+							peerSnap = peer.st.Distributor().LocalState(false)
+						case "merge-stale-peer-snapshot":
+							if peerSnap != nil {
+								n.st.Distributor().MergeRemoteState(peerSnap, false)
+							}
 						case "redeliver-last-broadcast":
 							for _, m := range lastMsgs {
 								n.st.Distributor().NotifyMsg(m)
